@@ -311,7 +311,7 @@ class ShiftCmp(Base):
 TBL = [3, 141, 59, 26]
 BTBL = [Bits8(0x11), Bits8(0xEE), Bits8(0x80), Bits8(0x7F)]
 KP = Pst(9, 6)
-STRUCT_BEHAVIORAL = ("StructBuild", "StructReg", "LhsFields", "FreeScalars", "ChildStructPorts", "FieldCmpExt", "IfcStructMsg", "SextArrayField", "TmpStructField")     # MemberConsts has struct CONSTANTS only: checked strictly     # designs whose blocks touch struct-typed signals / constants (signature class of the Yosys struct findings)
+STRUCT_BEHAVIORAL = ("StructBuild", "StructReg", "LhsFields", "FreeScalars", "ChildStructPorts", "FieldCmpExt", "IfcStructMsg", "SextArrayField", "TmpStructField", "FieldNamedLikeMethod")     # MemberConsts has struct CONSTANTS only: checked strictly     # designs whose blocks touch struct-typed signals / constants (signature class of the Yosys struct findings)
 K5 = 5
 KB = Bits8(0xC3)
 
@@ -1929,6 +1929,33 @@ class OverlapSelfBlock(Base):
     @update
     def up_osb():
       s.o[4:8] @= s.o[2:6]
+
+
+# ------------------------------------------------------------------ bitstruct fields named like methods of Signal
+Mst = mk_bitstruct("Mst", {"inverse": Bits4, "get_type": Bits4})
+
+
+@design(lambda st, a, b, sel, en, reset: (None, {"o": (a & 0xF), "p": (b & 0xF) ^ 5}))
+class FieldNamedLikeMethod(Base):
+  """fields called inverse / get_type (names of methods every signal object has) written in one block and read in another"""
+  def construct(s):
+    s.ports()
+    s.o = OutPort(Bits8)
+    s.p = OutPort(Bits8)
+    s.w = Wire(Mst)
+
+    @update
+    def up_fnm_w1():
+      s.w.inverse @= s.a[0:4]
+
+    @update
+    def up_fnm_w2():
+      s.w.get_type @= s.b[0:4]
+
+    @update
+    def up_fnm_o():
+      s.o @= zext(s.w.inverse, 8)
+      s.p @= zext(s.w.get_type ^ 5, 8)
 
 
 def sequences():
